@@ -13,8 +13,10 @@ from histlib import canon_v, tok, deep_state
 MODS = {"C03": ["Nanite.Props.C03", "Nanite.Witness.C03", "Nanite.Audit.C03", "Nanite.Props.C03Scan",
                 "Nanite.Audit.C03Scan"],
         "C06": ["Nanite.Props.C03", "Nanite.Witness.C03", "Nanite.Audit.C06"],
-        "C09": ["Nanite.Props.C09", "Nanite.Props.C03", "Nanite.Audit.C09"],
-        "C10": ["Nanite.Props.C03", "Nanite.Witness.C03", "Nanite.Audit.C10"]}
+        "C09": ["Nanite.Props.C09", "Nanite.Props.C03", "Nanite.Audit.C09", "Nanite.Props.C09Pipeline",
+                "Nanite.Audit.C09Pipeline"],
+        "C10": ["Nanite.Props.C03", "Nanite.Witness.C03", "Nanite.Audit.C10", "Nanite.Props.C10Order",
+                "Nanite.Audit.C10Order"]}
 
 VALID_PIPES = [
     (["compute_tip_position"], {}),
